@@ -383,7 +383,7 @@ VARIABLE c
 
 Init == c \in {[sh |-> x, p |-> NoPert] : x \in Shapes}
 Next == /\ c.p.k = "none"
-        /\ \E q \in Perts(c.sh.kind, Encode(c.sh)) : c' = [c EXCEPT !.p = q]
+        /\ \E s \in {Encode(c.sh)} : \E q \in Perts(c.sh.kind, s) : c' = [c EXCEPT !.p = q]
 Spec == Init /\ [][Next]_c
 
 Base(cc)   == Encode(cc.sh)
@@ -392,10 +392,11 @@ Layout(cc) == Apply(Base(cc), cc.p)
 (***************************************************************************)
 (* Invariants (each is evaluated on every case)                            *)
 (***************************************************************************)
+\* (layouts and verdicts are bound by quantifiers over singleton sets, not by LET: TLC evaluates a bound
+\*  value once, whereas it re-evaluates a LET definition that depends on the state at every use)
 TypeOK ==
-    LET s == Layout(c)
-        d == Decode(c.sh.kind, s)
-    IN  /\ d.v \in {"accept", "refuse", "dep"}
+    \A s \in {Layout(c)} : \A d \in {Decode(c.sh.kind, s)} :
+        /\ d.v \in {"accept", "refuse", "dep"}
         /\ d.n \in 0..NBytes(s)
         /\ d.v = "refuse" => d.why \in {"truncated", "nonminimal", "oversize", "superfluous", "short", "badflag"}
         /\ \A i \in 1..Len(s) : s[i].n >= 1 /\ (s[i].k = "C" => s[i].n <= s[i].f /\ s[i].f >= MinForm(s[i].v))
@@ -403,8 +404,7 @@ TypeOK ==
 
 \* BIP141 relations between the sizes of whatever was accepted
 SizeLaws ==
-    LET d == Decode(c.sh.kind, Layout(c))
-        TxLaw(x, n) ==
+    LET TxLaw(x, n) ==
             /\ Size(x) = n                                      \* consumed = total size of the decoded tx
             /\ Size(x) >= NoWitSize(x)
             /\ (Size(x) = NoWitSize(x)) <=> ~x.wit
@@ -413,7 +413,7 @@ SizeLaws ==
             /\ 4 * VSize(x) >= Weight(x) /\ 4 * (VSize(x) - 1) < Weight(x)
             /\ NoWitSize(x) <= VSize(x) /\ VSize(x) <= Size(x)
             /\ NoWitSize(x) >= 10
-    IN  d.v = "accept" =>
+    IN  \A d \in {Decode(c.sh.kind, Layout(c))} : d.v = "accept" =>
           /\ c.sh.kind = "tx" => TxLaw(d.dec, d.n)
           /\ c.sh.kind = "block" =>
                /\ \A i \in 1..Len(d.txs) : TxLaw(d.txs[i].dec, d.txs[i].size) /\ d.txs[i].nowit = NoWitSize(d.txs[i].dec)
@@ -434,20 +434,18 @@ SameCS(s, e, off) == CSet(e, 1, off, {}) \subseteq CSet(s, 1, 0, {})
 RECURSIVE TxOffsets(_, _)
 TxOffsets(q, off) == IF Len(q) = 0 THEN <<>> ELSE <<off>> \o TxOffsets(Tail(q), off + Head(q).size)
 ReencodeIdentity ==
-    LET s == Layout(c)
-        d == Decode(c.sh.kind, s)
-    IN  d.v = "accept" =>
-          /\ c.sh.kind = "tx" => NBytes(EncodeTx(d.dec)) = d.n /\ SameCS(s, EncodeTx(d.dec), 0)
+    \A s \in {Layout(c)} : \A d \in {Decode(c.sh.kind, s)} :
+        d.v = "accept" =>
+          /\ c.sh.kind = "tx" => \A e \in {EncodeTx(d.dec)} : NBytes(e) = d.n /\ SameCS(s, e, 0)
           /\ c.sh.kind = "block" =>
-               LET e  == EncodeBlock([txs |-> [i \in 1..Len(d.txs) |-> d.txs[i].dec]])
-               IN  NBytes(e) = d.n /\ SameCS(s, e, 0)
+               \A e \in {EncodeBlock([txs |-> [i \in 1..Len(d.txs) |-> d.txs[i].dec]])} :
+                   NBytes(e) = d.n /\ SameCS(s, e, 0)
 
 \* canonical encodings are accepted and decode to the transaction they encode; the others are not canonical
 RoundTrip ==
     c.p.k = "none" =>
-      LET s == Layout(c)
-          d == Decode(c.sh.kind, s)
-      IN  /\ c.sh.kind = "tx" =>
+      \A s \in {Layout(c)} : \A d \in {Decode(c.sh.kind, s)} :
+          /\ c.sh.kind = "tx" =>
                /\ ValidTx(c.sh.tx) <=> Canonical(s)
                /\ ValidTx(c.sh.tx) => d.v = "accept" /\ d.dec = c.sh.tx /\ d.n = NBytes(s) /\ EncodeTx(d.dec) = s
                /\ (c.sh.tx.wit /\ ~HasWitness(c.sh.tx)) => d.v = "refuse" /\ d.why = "superfluous"
@@ -461,11 +459,9 @@ RoundTrip ==
 
 \* what each perturbation does to the verdict
 PertLaws ==
-    LET s0 == Base(c)
-        d0 == Decode(c.sh.kind, s0)
-        s  == Layout(c)
-        d  == Decode(c.sh.kind, s)
-    IN  /\ c.p.k = "cut" =>     \* a proper prefix of what an accepting reader consumed is refused: data missing
+    \A s0 \in {Base(c)} : \A d0 \in {Decode(c.sh.kind, s0)} :
+    \A s \in {Apply(s0, c.p)} : \A d \in {Decode(c.sh.kind, s)} :
+        /\ c.p.k = "cut" =>     \* a proper prefix of what an accepting reader consumed is refused: data missing
              /\ (d0.v = "accept" /\ NBytes(s) < d0.n) => d.v = "refuse" /\ d.why = "truncated"
              /\ d0.v # "dep" => d.v # "dep"
         /\ (c.p.k = "form" /\ d0.v # "dep") =>    \* a non-minimal length prefix is always refused
